@@ -4,10 +4,11 @@ from . import register
 register('C08', title='minimum-run filter',
          deciding=['check_min_burst_cycles'],
          rule='exhaustive: every boolean array of length 0..N (N=12 quick, 18 thorough) x every m in 0..len+1; '
-              'random: arrays up to length 2000 with geometric runs, m integer / non-integer / inf / negative. '
+              'random: arrays up to length 2000 with geometric runs, m integer / non-integer / inf / negative; memory layouts: contiguous, every-other-element view, reversed view, column of a 2-D array (all for length <= 8, one rotating beyond). '
               'distinct = array (by index in the enumeration / by shard+iteration); non-trivial = at least two '
               'maximal True-runs of different length. Oracle: explicit run scan on a snapshot of the input.',
-         floors={'quick': {'nontrivial': 1000}, 'thorough': {'nontrivial': 10000}},
+         floors={'quick': {'nontrivial': 1000, 'classes': {'layout=strided': 8000, 'layout=reversed': 8000, 'layout=column': 8000}},
+                 'thorough': {'nontrivial': 10000}},
          assumptions=['min_n_cycles in [0, inf] is the documented range; negative must raise ValueError'],
          quick_shards=8, thorough_shards=16)
 
@@ -88,11 +89,12 @@ register('C06', title='consistency burst labels',
          rule='synthetic adversarial tables (four feature columns with values in {0, t-eps, t, t+eps, 1, NaN}, 0..27 rows, all '
               'min_n_cycles 0..n+1 incl. non-integer, thresholds partly defaulted); every qualifying pattern of length <= 8 '
               '(11 thorough) x every m (exhaustive); tables from generated signals with thresholds equal to table cells; for each '
-              'table two raised threshold vectors (labels must be nested). Oracle: explicit scan, q = all four strictly above, '
+              'table two raised threshold vectors (labels must be nested); row labels of the table: default range / offset range / gaps / reversed / strings (a stretch or selection of a longer table). Oracle: explicit scan, q = all four strictly above, '
               'first/last never, maximal runs >= m kept. Non-trivial = >= 1 True and >= 1 False label and >= 1 cell exactly on a '
               'threshold or NaN; distinct by SHA-1 of the table + thresholds.',
          floors={'quick': {'nontrivial': 150, 'classes': {'cells_equal_threshold': 1000, 'nan_cells': 200, 'routing_tables': 50,
-                                                          'monotone_pairs': 500}},
+                                                          'monotone_pairs': 500, 'table_index=offset': 60, 'table_index=gaps': 60,
+                                                          'table_index=reversed': 50, 'table_index=strings': 50}},
                  'thorough': {'nontrivial': 5000}},
          assumptions=['documented defaults for missing threshold keys: 0, .5, .5, .8, min_n_cycles 3'],
          quick_shards=8, thorough_shards=16)
@@ -126,9 +128,10 @@ register('C09', title='peak/trough mirror',
 register('C10', title='amplitude / rate covariance',
          deciding=['compute_features'],
          rule='metamorphic triples: base run, signal x a (a = 2^k, k in -10..10 for half of the cases, -60..60 for the rest), fs and band x c (c in {1/4,1/2,2,4}, filter length in '
-              'cycles, no durations in seconds); exact comparison (voltages x a exactly; band_amp within 1e-12). Non-trivial = >= 5 rows '
+              'cycles, no durations in seconds), option dictionaries either fresh per run or the SAME objects for the three runs; exact comparison (voltages x a exactly; band_amp within 1e-12). Non-trivial = >= 5 rows '
               'and >= 1 burst cycle in the base run; distinct by SHA-1 of the case.',
-         floors={'quick': {'nontrivial': 50, 'classes': {'compared:amplitude': 100, 'compared:rate': 100, 'a=2^[<-26]': 10, 'a=2^[>26]': 10}},
+         floors={'quick': {'nontrivial': 50, 'classes': {'compared:amplitude': 100, 'compared:rate': 100, 'a=2^[<-26]': 10, 'a=2^[>26]': 10,
+                                                         'options=shared_objects': 15}},
                  'thorough': {'nontrivial': 2000}},
          assumptions=PIPE_ASSUME + ['powers of two commute exactly with IEEE arithmetic (no under/overflow in the generated range)'],
          quick_shards=8, thorough_shards=16)
@@ -136,13 +139,14 @@ register('C10', title='amplitude / rate covariance',
 register('C11', title='2-D group = per-signal, in order',
          deciding=['pool_worker_events'],
          rule='pool runs of compute_features_2d(axis=0) / BycycleGroup.fit on 2-12 pairwise different rows with shared dict / None / '
-              'per-row option lists (centrings, methods, thresholds, ignored return_samples keys), n_jobs in {1,2,3,n,n+3,-1}, progress '
+              'per-row option lists (centrings, methods, thresholds, ignored return_samples keys; for the object either through the constructor or assigned to its public attributes before the first fit / after a fit with the defaults), n_jobs in {1,2,3,n,n+3,-1}, progress '
               'in {None, tqdm, tqdm.notebook}; completion order chosen by per-row delays injected inside the workers (all 24 orders for '
               'n=4 [quick: a subset], all 120 for n=5 in the thorough tier). Oracle: position i == real compute_features on row i with '
               'options i (exact table equality); offline check of the worker event log: every row analysed exactly once with its own '
               'options; observed completion permutations recorded. Non-trivial = pool run with >= 2 rows whose worker events were '
               'observed; distinct by SHA-1 of the case.',
-         floors={'quick': {'nontrivial': 20, 'classes': {'runs_completing_out_of_submission_order': 8, 'worker_events': 60}},
+         floors={'quick': {'nontrivial': 20, 'classes': {'runs_completing_out_of_submission_order': 8, 'worker_events': 60,
+                                                         'options_set_as_attributes:before_first_fit': 2, 'options_set_as_attributes:after_a_fit': 2}},
                  'thorough': {'nontrivial': 200, 'classes': {'runs_completing_out_of_submission_order': 100}}},
          assumptions=['the per-signal analysis itself is decided by C01-C07', 'delays are sleeps before the analysis inside a worker; '
                       'workers share no state'],
@@ -152,13 +156,15 @@ register('C13', title='epoched analysis partitions the flattened analysis',
          deciding=['epoch_df', 'compute_features_2d_axis_none'],
          rule='generated: 2-8 epochs, epoch length from half a period to ten periods (empty and many-cycle epochs), epoch-aligned '
               'signals whose extrema fall exactly on multiples of the epoch length, both centrings and methods, single dict / None / '
-              'per-epoch lists with different thresholds. Oracle (offline, on the returned list): concatenation with indices shifted '
+              'per-epoch lists with different thresholds, in 40 % of the function cases a second call with the same option objects is the one checked. Oracle (offline, on the returned list): concatenation with indices shifted '
               'back == the flattened compute_features table row for row, each row in the epoch containing its closing extremum (exact '
               'coincidence with a boundary: either adjacent epoch), feature values unchanged; single option set: labels == '
               'flattened labels; per-epoch list: labels == C06/C07 reference rule on that epoch\'s table with that epoch\'s thresholds. '
               'Non-trivial = >= 2 non-empty epochs and >= 1 cycle straddling an epoch boundary.',
          floors={'quick': {'nontrivial': 100, 'classes': {'empty_epochs': 10, 'boundary_coincidences': 20, 'per_epoch_list': 40,
-                                                          'single_option_set': 40}},
+                                                          'single_option_set': 40,
+                                                          'second_call_with_the_same_option_objects:list': 8,
+                                                          'second_call_with_the_same_option_objects:dict': 8}},
                  'thorough': {'nontrivial': 5000}},
          assumptions=['the flattened analysis itself is decided by C01-C07'],
          quick_shards=8, thorough_shards=16)
@@ -239,30 +245,34 @@ register('C17', title='interpolated phase',
          deciding=['extrema_interpolated_phase'],
          rule='exhaustive: every placement of an alternating extremum sequence (both starting kinds, >= 2 extrema, gaps >= 2) on arrays of '
               'length 3..N (N=13 quick, 17 thorough), without midpoints, with every admissible midpoint position per flank and with only the rises / only the decays of each such assignment (inclusive of the '
-              'flank ends; completely while the product of choices <= 64 / 1024, otherwise all-first / all-middle / all-last - counted); '
+              'flank ends; completely while the product of choices <= 64 / 1024, otherwise all-first / all-middle / all-last - counted), and cyclepoint sets that BEGIN and / or END with a midpoint '
+              '(a rise before a leading peak / decay before a leading trough, a decay after a final peak / rise after a final trough) at every position before the first / after the last extremum; '
               'generated: cyclepoints from find_extrema / find_zerox on all families (adversarial tails over-sampled), boundary in {0,1,5}, all '
               'first_extrema values, with and without midpoints. Oracle: the clauses of the statement evaluated on the returned array (length, '
               'finite exactly on [first, last cyclepoint], |phase| <= pi, anchors 0 / +-pi / -+pi/2, no decrease except into/out of a trough). '
               'Non-trivial = >= 2 peaks and >= 2 troughs.',
          floors={'quick': {'nontrivial': 500, 'classes': {'last_cyclepoint=t:to_end=0': 100, 'last_cyclepoint=p:to_end=1': 100,
-                                                          'midpoint_coincides_with_extremum': 100}},
+                                                          'midpoint_coincides_with_extremum': 100,
+                                                          'leading_midpoint:gap=1': 500, 'trailing_midpoint:gap=1': 500}},
                  'thorough': {'nontrivial': 5000}},
-         assumptions=['cyclepoint sets with two extrema closer than 2 samples, non-alternating extrema or midpoints outside the extrema span are '
-                      'outside the quantifier (counted, skipped)'],
+         assumptions=['cyclepoint sets with two extrema closer than 2 samples, non-alternating extrema, or a midpoint on a flank it does not belong to are '
+                      'outside the quantifier (counted, skipped); one leading and one trailing midpoint of the matching kind belong to it'],
          quick_shards=8, thorough_shards=16, thorough_timeout=7200)
 
 register('C18', title='windowing utilities',
          deciding=['limit_df', 'limit_signal', 'drop_samples_df', 'split_samples_df', 'flatten_dfs'],
          rule='generated: cycle tables of both centrings and methods (with and without burst columns) x windows {random, exactly on cycle '
-              'boundaries, start None, stop None, both None, window containing no cycle} x reset_indices; limit_signal on the matching time '
+              'boundaries, a window opened / closed on EVERY cycle boundary of the table (limit = k / fs, the time of that sample), start None, stop None, both None, window containing no cycle} x reset_indices; limit_signal on the matching time '
               'axis; split / drop on every table; flatten_dfs on 1-D and 2-D lists of epoch tables with list / array labels and custom column '
               'name. Monitors (snapshot + post-condition): ordered row subset, inside cycles kept / outside cycles dropped (closed interval, decided in rational arithmetic; a boundary that '
-              'coincides with a limit only up to rounding, |d| <= 1e-6 samples: either), feature values unchanged, ALL sample_* columns shifted by one common offset (0 without reset), '
+              'coincides with a limit only up to rounding, |d| <= 1e-6 samples: either - except when the limit IS the float time k / fs of the boundary sample, which is a coincidence), feature values unchanged, ALL sample_* columns shifted by one common offset (0 without reset), '
               'no exception for None limits or trough-centred tables; limit_signal == samples with start <= t < stop; column partition and '
               'value equality; row provenance by a marker column: each row carries the label of its table. Non-trivial (limit) = window that '
               'keeps >= 1 cycle and cuts >= 1.',
          floors={'quick': {'nontrivial': 100, 'classes': {'limit_df_window_cuts_and_keeps': 50, 'limit_df_boundary_coincidence_exact': 20,
-                                                          'limit_df_window_without_cycle': 20, 'flatten:1d': 10, 'flatten:2d': 10}},
+                                                          'limit_df_window_without_cycle': 20, 'flatten:1d': 10, 'flatten:2d': 10,
+                                                          'limit_df_boundary_coincidence_on_time_axis': 1500,
+                                                          'limit_df_boundary_where_fs_times_t_does_not_round_back': 15}},
                  'thorough': {'nontrivial': 5000}},
          assumptions=['the common offset\'s value is recorded, only its uniformity is asserted (that is what the statement says)'],
          quick_shards=8, thorough_shards=16)
